@@ -311,6 +311,18 @@ func sameExpr(a, b ssa.Value, d int) bool {
 			return sameExpr(x.X, y.X, d+1)
 		}
 	}
+	// dereference of equal pointers
+	if ua, ok := ca.(*ssa.UnOp); ok && ua.Op == token.MUL {
+		if ub, ok := cb.(*ssa.UnOp); ok && ub.Op == token.MUL {
+			if _, isFA := ua.X.(*ssa.FieldAddr); !isFA {
+				if _, isFB := ub.X.(*ssa.FieldAddr); !isFB {
+					if _, isAl := ua.X.(*ssa.Alloc); !isAl {
+						return sameExpr(ua.X, ub.X, d+1)
+					}
+				}
+			}
+		}
+	}
 	ra, oka := FieldLoadOf(ca)
 	rb, okb := FieldLoadOf(cb)
 	if oka && okb && ra.Struct == rb.Struct && ra.Field == rb.Field {
